@@ -78,7 +78,7 @@ def replay_trace_on_real_kernel(scn, obs):
         if not os.path.exists(p):
             os.mkfifo(p)
     env = dict(os.environ)
-    env.update({"VFW_TRACE": trace, "VFW_FIFOS": fifos, "VFW_ROOT": root, "PYTHONPATH": "/repo/src", "PYTHONUNBUFFERED": "1"})
+    env.update({"VFW_TRACE": trace, "VFW_FIFOS": fifos, "VFW_ROOT": root, "PYTHONPATH": driver.REPO_SRC, "PYTHONUNBUFFERED": "1"})
     env.pop("COND_OUT", None)
     proc = subprocess.Popen(["/venv/bin/python", "-m", "conductor"] + list(scn["argv"]), cwd=os.path.join(root, scn.get("cwd", ".")),
                             env=env, stdout=subprocess.PIPE, stderr=subprocess.PIPE)
